@@ -411,7 +411,22 @@ def _initial_values(ctx: Ctx, helpers):
             for t in A.store_targets(n):
                 if A.dotted(t) == "self.hop_by_hop_seq":
                     val = n.value
-    if not (isinstance(val, ast.Call) and A.call_name(val) == "SequenceGenerator"):
+    def _is_seqgen(e) -> bool:
+        # SequenceGenerator(), or a generator handed in by the creator of the connection with
+        # SequenceGenerator() as the fall-back (`p if p is not None else SequenceGenerator()`,
+        # `p or SequenceGenerator()`): the identifiers still come from one locked counter
+        pparams = {a.arg for a in pinit.node.args.args + pinit.node.args.kwonlyargs} - {"self"}
+        if isinstance(e, ast.Call) and A.call_name(e) == "SequenceGenerator":
+            return True
+        if isinstance(e, ast.IfExp):
+            alts = [e.body, e.orelse]
+            return any(_is_seqgen(x) for x in alts) and all(
+                _is_seqgen(x) or (isinstance(x, ast.Name) and x.id in pparams) for x in alts)
+        if isinstance(e, ast.BoolOp) and isinstance(e.op, ast.Or):
+            return _is_seqgen(e.values[-1]) and all(
+                isinstance(x, ast.Name) and x.id in pparams for x in e.values[:-1])
+        return False
+    if not _is_seqgen(val):
         ctx.fail(cons, pinit.loc(), "each connection must own a SequenceGenerator for "
                  "hop-by-hop identifiers")
 
